@@ -403,6 +403,19 @@ def check_eb(rep, ix):
     ok = 'self._bursts=self.size//(myRepCodeSize*self._samples)' in src and 'myRepCodeSize=RepCode.lisSize(self.repCode)' in src and \
         'if self.size%(myRepCodeSize*self._samples)!=0:'.replace(' ', '') in src
     rep.ob('R-C08-EB', f'{L}:DatumSpecBlock._setBurstsSubChannels', 'bursts = size / (code size x samples), exact division required', ok, node=sb, module=m)
+    # every channel with at least one byte has its bursts and sub-channels derived: the test that sets a block aside as empty
+    # agrees with isNull (size == 0) - a one-byte channel (codes 56, 66) is a channel
+    gsb = cfgmod.CFG(sb)
+    bst = [s_ for s_ in gsb.stmts() if isinstance(s_, ast.Assign) and _n(s_.targets[0]) == 'self._bursts' and 'self.size//' in _n(s_.value)]
+    ok = False
+    found = ''
+    if len(bst) == 1:
+        deps = [(show(nf(b.test)), lab) for b, lab in gsb.control_deps(bst[0]) if isinstance(b, ast.If) and 'self.size' in _n(b.test) and '%' not in _n(b.test)]
+        found = str(deps)
+        ok = all((t == common.nfs('self.size > 0') and lab == 'true') or (t == common.nfs('self.size < 0') and lab == 'false') or (t == common.nfs('self.size == 0') and lab == 'false')
+                 or (t == common.nfs('self.size >= 1') and lab == 'true') for t, lab in deps) and bool(deps)
+    rep.ob('R-C08-EB', f'{L}:DatumSpecBlock._setBurstsSubChannels', 'bursts are derived for every size above 0', ok, found=found, required='under `self.size > 0` (isNull is size == 0)',
+           node=bst[0] if bst else sb, module=m)
     df = ix.get_func(L, 'LrDFSRRead.__init__')
     src = _n(df)
     ok = 'self.ebs.readFromFile(theFile)' in src and 'myDsbr=DatumSpecBlockRead(theFile)' in src and 'self.dsbBlocks.append(myDsbr)' in src
